@@ -41,6 +41,8 @@ type stack struct {
 	fired    int      // faults fired so far
 	firedLog []string // kinds
 	closed   bool     // a closing fault fired: the upstream connection is gone
+	lastReq  []byte   // the request the peer is answering
+	mustFail string   // set when a fault replaced an answer that would have been a success: the call in progress cannot succeed
 	shimDead bool     // the shim closed its connection itself
 }
 
@@ -62,6 +64,7 @@ func newStack(p *SPlan, noUp bool, o *sim.Outcome) *stack {
 	}
 	s.a, s.b = net.Pipe()
 	s.peer = &refagent.Peer{Agent: s.ref, Faults: append([]refagent.PeerFault(nil), p.Faults...)}
+	s.peer.OnRequest = func(idx int, kind string, req []byte) { s.lastReq = req }
 	s.peer.OnFault = func(kind, fault string, idx int) {
 		s.fired++
 		s.firedLog = append(s.firedLog, kind+"/"+fault)
@@ -69,6 +72,30 @@ func newStack(p *SPlan, noUp bool, o *sim.Outcome) *stack {
 			s.closed = true
 		}
 		o.Fault("upstream/" + fault)
+		// Did the fault turn an answer that would have been a success into a failure? Then the shim's call
+		// cannot succeed: a failure of the underlying agent surfaces as an error. (A remove request for
+		// something the agent does not hold fails anyway - the shim expects that for in-memory certificates.)
+		switch fault {
+		case refagent.FaultFail, refagent.FaultEmpty, refagent.FaultGarbage, refagent.FaultWrongType, refagent.FaultTruncBody:
+			honestOK := false
+			switch kind {
+			case "list":
+				honestOK = true
+			case "remove", "sign":
+				if blob := firstString(s.lastReq); blob != nil && !s.ref.IsLocked() {
+					for _, id := range s.ref.Snapshot() {
+						if bytes.Equal(id.Blob, blob) && !(kind == "sign" && id.NoSign) {
+							honestOK = true
+						}
+					}
+				}
+			}
+			// a truncated reply means that the request was carried out and only its answer was mangled: for a
+			// removal the shim may find that out (by listing) and report what is true
+			if honestOK && !((kind == "list" || kind == "remove") && fault == refagent.FaultTruncBody) {
+				s.mustFail = kind + "/" + fault
+			}
+		}
 	}
 	s.peer.OnSlow = func(kind string, secs int64) { o.Fault("upstream_slow_reply"); o.Probe("slow_reply/" + kind) }
 	go func() { s.peer.Serve(s.b); close(s.done) }()
@@ -112,10 +139,24 @@ type stepRes struct {
 	sigErr   string
 	bytes    []byte
 	faulted  bool
+	mustFail string // a fault of this call turned a successful answer of the underlying agent into a failure
+}
+
+// firstString returns the first ssh string of a request body (after the type byte).
+func firstString(req []byte) []byte {
+	if len(req) < 5 {
+		return nil
+	}
+	n := int(req[1])<<24 | int(req[2])<<16 | int(req[3])<<8 | int(req[4])
+	if n < 0 || len(req) < 5+n {
+		return nil
+	}
+	return req[5 : 5+n]
 }
 
 func (s *stack) call(f func() error) (res stepRes) {
 	before := s.fired
+	s.mustFail = ""
 	func() {
 		defer func() {
 			if r := recover(); r != nil {
@@ -126,6 +167,7 @@ func (s *stack) call(f func() error) (res stepRes) {
 		res.err = f()
 	}()
 	res.faulted = s.fired > before
+	res.mustFail = s.mustFail
 	return res
 }
 
@@ -507,6 +549,27 @@ func runHistory(p *SPlan, noUp bool, o *sim.Outcome, sigParts *[]string) []obsLi
 		if res.faulted || s.closed {
 			// ---- narrow relaxation after an injected upstream fault ----
 			o.Probe("op_under_fault")
+			if res.mustFail != "" && res.err == nil && res.panicked == nil {
+				o.Fail("C10.swallowed", "failure_swallowed:"+strings.SplitN(res.mustFail, "/", 2)[0], i, "%s: the underlying agent failed a request it would have served (%s) and the call reported success", tag, res.mustFail)
+			} else if res.mustFail != "" {
+				o.Probe("upstream_failure_surfaced")
+			}
+			if (st.Op == "list" || st.Op == "signers" || st.Op == "signvia") && res.err == nil && res.panicked == nil && !wasLocked && !s.closed {
+				// a faulted call may fail or list less - it never discloses what must not be listed
+				for _, e := range res.keys {
+					if e == "?" {
+						continue
+					}
+					id := c.ident(e, 0, now)
+					if id.IsCert && shimmodel.Validity(id.VA, id.VB, now) == shimmodel.Invalid {
+						o.Fail("C07.listed_invalid", "listed_invalid_under_fault:"+c.certs[e].Window, i, "%s: the underlying agent failed a request of this call (%v), the call succeeded and lists certificate %s (window %s) outside its validity at simulated time +%ds", tag, s.firedLog, e, c.certs[e].Window, now-epoch)
+					}
+					if id.IsCert && s.model.NoUp && id.YSSHCA && !pre.MemHas(e) {
+						o.Fail("C09.hidden_listed", "hidden_listed_under_fault:"+c.certs[e].KeyID, i, "%s: the underlying agent failed a request of this call, the call succeeded and lists upstream YSSHCA certificate %s in no-upstream mode", tag, e)
+					}
+				}
+				o.Probe("listing_under_fault_discloses_nothing")
+			}
 			s.resync(pre, st, o, i, tag, wasLocked, res.err == nil)
 			if s.closed {
 				o.Probe("ops_after_connection_loss")
